@@ -256,12 +256,21 @@ func (r *Route) goodInfo() {
 		goutil.Panicf("the route allowed methods cannot be empty.(path: '%s')", r.path)
 	}
 
-	str := MethodsString()
 	for _, method := range r.methods {
-		if strings.Index(","+str, ","+method) == -1 {
-			goutil.Panicf("invalid method name '%s', must in: %s", method, str)
+		if !isSupportedMethod(method) {
+			goutil.Panicf("invalid method name '%s', must in: %s", method, MethodsString())
 		}
 	}
+}
+
+// method must be equals to one of the supported methods. a prefix("DEL") or a list("GET,POST") is invalid.
+func isSupportedMethod(method string) bool {
+	for _, m := range anyMethods {
+		if m == method {
+			return true
+		}
+	}
+	return false
 }
 
 // check custom var regex string.
